@@ -255,6 +255,11 @@ type RuleSet struct {
 	// (called while closing a state), e.g. a bound with a small constant from
 	// a relational fact whose right-hand side became a constant by translation.
 	DeriveDyn func(has func(Atom) bool, each func(func(Atom))) []Atom
+	// Translate is called for every parametric fact of a callee ("v:..:$i..")
+	// applied at a call site, with the call's operands; it may return further
+	// (statically named) atoms, e.g. "the value classified by the helper is
+	// this function's response type".
+	Translate func(m *Matcher, fact Atom, ops []ssa.Value) []Atom
 	// DynComplement enables the complement treatment for the dynamic pair
 	// v:nn:<x> / v:nil:<x>.
 	DynComplement bool
@@ -618,6 +623,13 @@ func (f *Flow) applySums(s AtomSet, refs []sumRef) (AtomSet, bool) {
 		if sr.call != nil {
 			if dyn := f.dyn[sr.kind][sr.fn][sr.idx]; len(dyn) > 0 {
 				s = s.with(translateDyn(dyn, sr.call)...)
+				if f.RS.Translate != nil {
+					m := f.matcherFor(sr.call.Parent())
+					ops := callOperands(sr.call.Common())
+					for _, a := range dyn {
+						s = s.with(f.RS.Translate(m, a, ops)...)
+					}
+				}
 			}
 		}
 		if sr.kind == "false" {
